@@ -5,6 +5,7 @@ import (
 	"encoding/json"
 	"flag"
 	"os"
+	"pgregory.net/rapid"
 	"strings"
 	"testing"
 )
@@ -32,6 +33,7 @@ func TestVerif(t *testing.T) {
 	}
 	Rec = rec
 	InstallSink(rec, CaptureHook)
+	rapid.VerifSetGate(GateFn)
 	switch *fMode {
 	case "scenarios":
 		f, err := os.Open(*fIn)
